@@ -41,6 +41,26 @@
 #include "htp_private.h"
 
 
+#ifdef LIBHTP_VERIF
+// Verification hook, compiled only with -DLIBHTP_VERIF: reports every inflate()
+// call made by the decompression driver (input and output space before and after
+// the call, return code, start of the produced output) to an observer.
+void (*htp_verif_inflate_cb)(int rc, unsigned int in_before, unsigned int in_after,
+        unsigned int out_before, unsigned int out_after, const unsigned char *out_start) = NULL;
+
+static int htp_verif_inflate(z_stream *strm, int flush) {
+    unsigned int in_before = strm->avail_in;
+    unsigned int out_before = strm->avail_out;
+    const unsigned char *out_start = strm->next_out;
+    int rc = inflate(strm, flush);
+    if (htp_verif_inflate_cb != NULL) {
+        htp_verif_inflate_cb(rc, in_before, strm->avail_in, out_before, strm->avail_out, out_start);
+    }
+    return rc;
+}
+#define inflate(strm, flush) htp_verif_inflate((strm), (flush))
+#endif
+
 static void *SzAlloc(ISzAllocPtr p, size_t size) { return malloc(size); }
 static void SzFree(ISzAllocPtr p, void *address) { free(address); }
 const ISzAlloc lzma_Alloc = { SzAlloc, SzFree };
